@@ -112,6 +112,8 @@ type Script struct {
 	Down       bool // connection refused
 	// Reply returns the error for a stage: "mail", "rcpt" (arg = address), "data", "status" (LMTP per-recipient, arg = address)
 	Reply func(stage, arg string) *smtp.SMTPError
+	// DataHook, when set, decides the reply to DATA with the transaction in view.
+	DataHook func(t Txn) *smtp.SMTPError
 	// DropAt: close the connection instead of answering at this stage ("mail","rcpt","data")
 	DropAt string
 }
@@ -273,6 +275,14 @@ func (w *World) Txns() []Txn {
 	return out
 }
 
+// Forget drops the recorded transactions (long-running worlds).
+func (w *World) Forget() {
+	w.mu.Lock()
+	w.txns = nil
+	w.Dials = nil
+	w.mu.Unlock()
+}
+
 type backend struct{ s *server }
 
 func (b *backend) NewSession(c *smtp.Conn) (smtp.Session, error) {
@@ -342,9 +352,15 @@ func (se *session) Data(r io.Reader) error {
 	}
 	se.s.w.mu.Lock()
 	se.cur.Data = b
+	snap := *se.cur
 	se.s.w.mu.Unlock()
 	if err := se.reply("data", ""); err != nil {
 		return err
+	}
+	if se.s.script.DataHook != nil {
+		if e := se.s.script.DataHook(snap); e != nil {
+			return e
+		}
 	}
 	se.s.w.mu.Lock()
 	se.cur.DataOK = true
